@@ -1,10 +1,11 @@
 (* C07 oracle.  Record (one batch):
      2 mode maxn fieldsbad cache items observed v1data
-   items    = ( (id key class out dupctx deep (ref ...) v1item) ... )   in request order
+   items    = ( (id key class out dupctx mset deep (ref ...) v1item) ... )   in request order
               key   = index of the de-duplication key the implementation's key functions give the item
               class = index of the item's equivalence class (tuple, context as a map, contextual
                       tuples as a multiset that keeps the order of same-(object,relation,user) tuples)
               out   = outcome class of the item's standalone CheckQuery
+              mset  = index of the item's class when the order of the contextual tuples is forgotten entirely
               deep  = standalone outcome with the default depth limit (= out unless out is the depth error
                       under a smaller limit)
               ref   = (api mode) standalone outcomes under the other two planner strategies
@@ -84,7 +85,7 @@ let d_api = function
   | ApiResults rs -> 12 :: List.length rs :: List.concat_map (fun (id, a) -> d_bytes id @ [int_of_api_item a]) rs
   | ApiPanic -> [13]
 
-type item = { id : string; key : int; cls : int; out : int; dupctx : bool; deep : int; refs : int list; v1 : value }
+type item = { id : string; key : int; cls : int; out : int; dupctx : bool; mset : int; deep : int; refs : int list; v1 : value }
 
 let f _id vs =
   match vs with
@@ -95,8 +96,8 @@ let f _id vs =
     let fieldsbad = as_bool fieldsbad in
     let its = List.map (fun v ->
       match as_list v with
-      | [id; k; c; o; d; deep; refs; v1] ->
-        { id = as_bytes id; key = as_int k; cls = as_int c; out = as_int o; dupctx = as_bool d; deep = as_int deep;
+      | [id; k; c; o; d; ms; deep; refs; v1] ->
+        { id = as_bytes id; key = as_int k; cls = as_int c; out = as_int o; dupctx = as_bool d; mset = as_int ms; deep = as_int deep;
           refs = List.map as_int (as_list refs); v1 = v1 }
       | _ -> failwith "item") (as_list items) in
     let citems = List.map (fun it ->
@@ -158,15 +159,17 @@ let f _id vs =
     let collisions = List.concat_map (fun (i, a) ->
       List.filter_map (fun (j, b) -> if i < j && a.key = b.key && a.cls <> b.cls then Some ((i, a), (j, b)) else None) indexed) indexed in
     if nocoll <> (collisions = []) then diff "no_key_collision disagrees with the collision list";
+    (* the listed defect: same contextual tuples, only the order of repeated (object, relation, user) differs *)
+    let known_pair a b = a.dupctx && b.dupctx && a.mset = b.mset in
     List.iter (fun ((_, a), (_, b)) ->
-      if not (a.dupctx && b.dupctx) then
+      if not (known_pair a b) then
         prop (Printf.sprintf "items %s and %s are different requests but share one de-duplication key" a.id b.id)) collisions;
     (* check respects the equivalence (same class => same standalone outcome, up to tolerance) *)
     List.iter (fun (i, a) -> List.iter (fun (j, b) ->
       if i < j && a.cls = b.cls && not (tolerated i a a.out b.out) then
         diff (Printf.sprintf "equivalent items %s and %s have standalone outcomes %s and %s" a.id b.id (out_s a.out) (out_s b.out)))
       indexed) indexed;
-    let in_collision it = List.exists (fun ((_, a), (_, b)) -> a.id = it.id || b.id = it.id) collisions in
+    let in_collision it = List.exists (fun ((_, a), (_, b)) -> (a.id = it.id || b.id = it.id) && known_pair a b) collisions in
     (* comparison of one id's observed outcome [r] (item classes) with the model's [m] and the standalone outcome *)
     let judge id r m =
       match find_idx id with
